@@ -106,7 +106,7 @@ def vc_apply(ctx):
                 k, v = versionless(c.args[1].val), versionless(c.args[2].val)
             else:
                 k, v = em['key'], versionless(c.args[1].val)
-            if not (k == ('field', g['dot'], 'actor') and v == ('field', g['dot'], 'counter')):
+            if not (k == ('field', g['dot'], g.get('kf', 'actor')) and v == ('field', g['dot'], g.get('vf', 'counter'))):
                 bad = (k, v)
         ctx.check(bad is None, 'apply', body, 'stores (dot.actor, dot.counter): must under {Lt}, never under {Gt}',
                   'the value inserted is not (dot.actor, dot.counter): %s, %s' % ((fmt(bad[0]), fmt(bad[1])) if bad else ('', '')), line=line, details=det)
@@ -145,7 +145,7 @@ def vc_reset(ctx):
         return
     g = found[0]
     src_ok = as_item(g['dot']) is not None and whole_iteration_over(as_item(g['dot']), 2)
-    key_ok = versionless(c.args[1].val) == ('field', g['dot'], 'actor')
+    key_ok = versionless(c.args[1].val) == ('field', g['dot'], g.get('kf', 'actor'))
     errs = []
     for o in (LT, EQ):
         if not res[o][1]:
@@ -658,10 +658,21 @@ def _nonzero_proof(facts, body, it, bb, v):
             if versionless(x) == vv and versionless(y)[0] != 'const':
                 return ('z', orient)
         return None
+    dropped = True
     for z in (LT, EQ):   # v == 0  implies  v <= e for every u64 e
         rc = Reach(facts, body, Evaluator(facts, classify=classify, bool_atom=atom, assumption={'v': 0, 'z': z}))
         if bb in rc.reachable:
-            return None
+            # in-place rewrite inside `retain`: a zero may be written if the same iteration then drops the entry
+            from .loops import loop_of_block
+            lp = loop_of_block(it, bb)
+            rem = [b2 for b2, c2 in it.calls.items() if lp is not None and b2 in lp.blocks and c2.cid.startswith('verif::collected')
+                   and call_name(c2.term) == 'remove'] if lp is not None else []
+            if not rem or not rc.must_pass(rem, start=bb, stops=(lp.head,)):
+                return None
+        else:
+            dropped = False
+    if dropped:
+        return 'a zero is written only to an entry that the same retain step removes'
     return 'guarded: the store is unreachable when the value is 0'
 
 
